@@ -75,6 +75,10 @@ def x_unique(engine, st, args, node, kw):
     origin = []
     for pc in pieces:
         ln, a = pc.c
+        if not (z3.is_const(a) or (z3.is_app(a) and a.decl().kind() == z3.Z3_OP_UNINTERPRETED)):
+            nm = z3.Const(f"un!src!{engine.new_id()}", a.sort())
+            st.assume(z3.ForAll([p], nm[p] == z3.simplify(a[p])))
+            a = nm
         upos = z3.Function(f"un!upos!{engine.new_id()}", Ty.IntS, Ty.IntS)  # where an element of the source ends up
         spos = z3.Function(f"un!spos!{engine.new_id()}", Ty.IntS, Ty.IntS)  # where an element of the result came from
         st.assume(z3.ForAll([p], z3.Implies(z3.And(0 <= p, p < ln), z3.And(0 <= upos(p), upos(p) < m, b[upos(p)] == a[p])), patterns=[a[p]]))
